@@ -4,7 +4,7 @@ data of that type, a collection-of-that-type item definition, and a decision who
 item definition, a collection of components, an item definition with allowed values and a reference to it. Every invocable is
 evaluated (real code, replay driver) with a grid of conforming and violating values; expectations written out from the property:
 a conforming value reaches the logic / the caller unchanged, a non-conforming one is null (for a component type: only the
-non-conforming component), an output is unwrapped from / wrapped into a singleton list when that makes it conform.
+non-conforming component), an output - of a decision, and of a decision service over an untyped output decision - is unwrapped from / wrapped into a singleton list when that makes it conform; a singleton list given for a simple-typed input is null.
 prints `typeddiff cases=N failures=M`; exit 0 / 2."""
 import os
 import subprocess
@@ -62,8 +62,20 @@ def model():
     typed_input('InAlias', 'tAlias')
     for w in ('1', '2', '3', '"a"', 'true'):
         typed_output('Small_%s' % w.strip('"'), 'tSmall', w)
+    # decision services: the result of the (untyped) output decision is coerced to the service's own output variable type
+    services = []
+    for (k, w, _) in TYPES:
+        name = 'Raw_%s' % k
+        p.append('  <decision name="%s" id="_%s"><variable name="%s"/><literalExpression><text>%s</text></literalExpression></decision>' % (name, name, name, w.replace('&', '&amp;').replace('<', '&lt;').replace('"', '&quot;')))
+        decisions.append(name)
+    for (t, _, _) in TYPES:
+        for (k, _, _) in TYPES:
+            for (pre, tref) in (('Svc', t), ('SvcL', 'tList_' + t)):
+                sname = '%s_%s_%s' % (pre, t, k)
+                p.append('  <decisionService name="%s" id="_%s"><variable name="%s" typeRef="%s"/><outputDecision href="#_Raw_%s"/></decisionService>' % (sname, sname, sname, tref, k))
+                services.append(sname)
     p.append('</definitions>')
-    return '\n'.join(p), decisions
+    return '\n'.join(p), decisions + services
 
 
 def cases():
@@ -78,6 +90,9 @@ def cases():
             out.append(('{}', {'Out_%s_plain_%s' % (t, k): pw if ok else 'null', 'Out_L_%s_plain_%s' % (t, k): ('[%s]' % pw) if ok else 'null',
                                'Out_%s_single_%s' % (t, k): pw if ok else 'null', 'Out_L_%s_single_%s' % (t, k): ('[%s]' % pw) if ok else 'null',
                                'Out_%s_pair_%s' % (t, k): 'null', 'Out_L_%s_pair_%s' % (t, k): ('[%s, %s]' % (pv, pw)) if ok else 'null'}))
+        out.append(('{}', dict([('Raw_%s' % t, pv)] + [('Svc_%s_%s' % (t2, t), pv if t2 == t else 'null') for (t2, _, _) in TYPES] + [('SvcL_%s_%s' % (t2, t), ('[%s]' % pv) if t2 == t else 'null') for (t2, _, _) in TYPES])))
+        # a singleton list is not a conforming INPUT of a simple type (the singleton conversions are for results)
+        out.append(('{In_%s: [%s]}' % (t, v), {'Echo_In_%s' % t: 'null'}))
         out.append(('{InL_%s: []}' % t, {'Echo_InL_%s' % t: '[]'}))
         out.append(('{InL_%s: %s}' % (t, v), {'Echo_InL_%s' % t: 'null'}))
         out.append(('{In_%s: null}' % t, {'Echo_In_%s' % t: 'null'}))
